@@ -201,30 +201,36 @@ structure MVCxt where
   descr : Option Str := none
   deriving DecidableEq, Repr, Inhabited
 
+/-- `min(len(c) for c in cols)` starting from the first column -/
+def minLen (cols : List (List PVal)) : Nat := (cols.map List.length).foldl min (cols.headD []).length
+
 /-- `MVContext.data`: `[list(row) for row in zip(*[ps.data for ps in pattern_structures])]` -/
 def zipStar : List (List PVal) → List (List PVal)
   | [] => []
-  | cols@(_ :: _) =>
-    let n := (cols.map List.length).foldl min (cols.headD []).length
-    (List.range n).map fun i => cols.map fun c => c.getD i .none_
+  | cols@(_ :: _) => (List.range (minLen cols)).map fun i => cols.map fun c => c.getD i .none_
 
 def MVCxt.dataRows (K : MVCxt) : List (List PVal) := zipStar (K.cols.map (·.data))
 
+/-- `ps.to_json(row[ps_i])` for one cell -/
+def encCell (p : PType × PVal) : Except CErr Str := toJsonText p.1 p.2
+
+/-- `[ps.to_json(row[ps_i]) for ps_i, ps in enumerate(self.pattern_structures)]` -/
+def encRow (types : List PType) (row : List PVal) : Except CErr (List Str) := mapME encCell (types.zip row)
+
+/-- `{'PValues': [...]}` -/
+def pvaluesJ (ts : List Str) : JV := .obj [("PValues".toList, .arr (ts.map jStr))]
+
+/-- the two dicts of the file, given the encoded cells -/
+def mvTreeOf (K : MVCxt) (texts : List (List Str)) : JV :=
+  .arr [.obj ((match K.descr with | some d => [("Description".toList, jStr d)] | none => [])
+          ++ [("ObjNames".toList, .arr (K.objs.map jStr)),
+              ("Params".toList, .obj [("AttrNames".toList, .arr (K.attrs.map jStr)),
+                                      ("PTypes".toList, .arr (K.cols.map fun c => jStr c.ptype.name))])]),
+        .obj [("Count".toList, jNat K.objs.length), ("Data".toList, .arr (texts.map pvaluesJ))]]
+
 /-- the tree `MVContext.write_json` hands to `json.dumps(.., separators=(',', ':'))` -/
 def writeMVTree (K : MVCxt) : Except CErr JV :=
-  let types := K.cols.map (·.ptype)
-  match mapME (fun row => mapME (fun (p : PType × PVal) => toJsonText p.1 p.2) (types.zip row)) K.dataRows with
-  | .error e => .error e
-  | .ok texts =>
-    let md : List (Str × JV) :=
-      (match K.descr with | some d => [("Description".toList, jStr d)] | none => [])
-      ++ [("ObjNames".toList, .arr (K.objs.map jStr)),
-          ("Params".toList, .obj [("AttrNames".toList, .arr (K.attrs.map jStr)),
-                                  ("PTypes".toList, .arr (types.map fun t => jStr t.name))])]
-    let oi : List (Str × JV) :=
-      [("Count".toList, jNat K.objs.length),
-       ("Data".toList, .arr (texts.map fun ts => .obj [("PValues".toList, .arr (ts.map jStr))]))]
-    .ok (.arr [.obj md, .obj oi])
+  (mapME (encRow (K.cols.map (·.ptype))) K.dataRows).bind fun texts => .ok (mvTreeOf K texts)
 
 def dictOfZipAux {α : Type} (acc : List (Str × α)) : List Str → List α → List (Str × α)
   | k :: ks, v :: vs => dictOfZipAux (dset k v acc) ks vs
@@ -241,13 +247,15 @@ def ptypeIndexed (attrs : List Str) (p : Str × PType) : Except CErr (Nat × Str
 
 def leIdx (a b : Nat × Str × PType) : Bool := decide (a.1 ≤ b.1)
 
+/-- `row[m_i]`, then the class's `_transform_data` on it -/
+def cellAt (t : PType) (i : Nat) (row : List PVal) : Except CErr PVal :=
+  match row[i]? with
+  | some v => transformVal t v
+  | none => .error indexError
+
 /-- `ps_type([row[m_i] for row in data], name=name)` -/
 def mkPCol (data : List (List PVal)) (q : Nat × Str × PType) : Except CErr PCol :=
-  match mapME (fun (row : List PVal) => match row[q.1]? with
-                                         | some v => transformVal q.2.2 v
-                                         | none => .error indexError) data with
-  | .error e => .error e
-  | .ok col => .ok (PCol.mk q.2.1 q.2.2 col)
+  (mapME (cellAt q.2.2 q.1) data).bind fun col => .ok (PCol.mk q.2.1 q.2.2 col)
 
 /-- `MVContext(data, pattern_types, object_names=…, attribute_names=…, description=…)`.
     `assemble_pattern_structures` walks `sorted(pattern_types.items(), key=index of the name in
@@ -258,69 +266,82 @@ def mkMVCxt (data : List (List PVal)) (ptypes : List (Str × PType)) (objs : Opt
   match data with
   | [] => .error indexError                        -- len(data[0])
   | row0 :: _ =>
-    let n := data.length
-    let m := row0.length
-    let objs' := objs.getD (defaultNames n)
-    let attrs' := attrs.getD (defaultNames m)
-    if objs'.length != n then .error assertionError
-    else if attrs'.length != m then .error assertionError
+    let objs' := objs.getD (defaultNames data.length)
+    let attrs' := attrs.getD (defaultNames row0.length)
+    if objs'.length != data.length then .error assertionError
+    else if attrs'.length != row0.length then .error assertionError
     else if !(attrs'.all fun a => (dget a ptypes).isSome) then .error assertionError
     else
-      match mapME (ptypeIndexed attrs') ptypes with
-      | .error e => .error e
-      | .ok keyed =>
-        match mapME (mkPCol data) (sortedBy leIdx keyed) with
-        | .error e => .error e
-        | .ok cols => .ok ⟨objs', attrs', cols, descr⟩
+      (mapME (ptypeIndexed attrs') ptypes).bind fun keyed =>
+      (mapME (mkPCol data) (sortedBy leIdx keyed)).bind fun cols =>
+      .ok ⟨objs', attrs', cols, descr⟩
+
+/-- `getattr(PS, v)` for one entry of `Params['PTypes']` -/
+def decPType (x : JV) : Except CErr PType :=
+  match x with
+  | .str s => PType.ofName s
+  | _ => .error typeError
+
+/-- `Params['PTypes']` as classes -/
+def ptypesOfJ (x : JV) : Except CErr (List PType) :=
+  match x with
+  | .arr xs => mapME decPType xs
+  | _ => .error typeError
+
+/-- `pattern_types[m]` -/
+def lookupP (ptypes : List (Str × PType)) (m : Str) : Except CErr PType :=
+  match dget m ptypes with
+  | some p => .ok p
+  | none => .error keyError
+
+/-- `p.from_json(v)` for one cell -/
+def decCell (p : PType × JV) : Except CErr PVal := fromJsonText p.1 p.2
+
+/-- `[p.from_json(v) for p, v in zip(patterns_list, g_data['PValues'])]` -/
+def decRow (plist : List PType) (g : JV) : Except CErr (List PVal) :=
+  match g.getKey "PValues".toList with
+  | .ok (.arr vs) => mapME decCell (plist.zip vs)
+  | .ok _ => .error typeError
+  | .error e => .error e
+
+/-- the part of `MVContext.read_json` below the `Params` lookup -/
+def readMVBody (descr on : Option JV) (params oi : JV) : Except CErr MVCxt :=
+  (params.getOpt "AttrNames".toList).bind fun an =>
+  (params.getKey "PTypes".toList).bind fun ptn =>
+  (namesOf an).bind fun an' =>
+    match an' with
+    | none => .error typeError                      -- zip(None, …)
+    | some attrNames =>
+      (namesOf on).bind fun objNames =>
+      (ptypesOfJ ptn).bind fun types =>
+      (mapME (lookupP (dictOfZip attrNames types)) attrNames).bind fun plist =>
+      (dataLines oi).bind fun gs =>
+      (mapME (decRow plist) gs).bind fun data =>
+      (descrOf descr).bind fun d =>
+      mkMVCxt data (dictOfZip attrNames types) objNames (some attrNames) d
 
 /-- `MVContext.read_json` after `json.loads` -/
 def readMVTree (t : JV) : Except CErr MVCxt :=
   match t with
   | .arr [md, oi] =>
-    match md.getOpt "Description".toList, md.getOpt "ObjNames".toList, md.getOpt "Params".toList with
-    | .ok descr, .ok on, .ok (some params) =>
-      match params.getOpt "AttrNames".toList, params.getKey "PTypes".toList with
-      | .ok an, .ok (.arr ptn) =>
-        match namesOf an, namesOf on with
-        | .ok (some attrNames), .ok objNames =>
-          match mapME (fun x => match x with
-                                | JV.str s => PType.ofName s
-                                | _ => .error typeError) ptn with
-          | .error e => .error e
-          | .ok types =>
-            let ptypes := dictOfZip attrNames types
-            match mapME (fun m => match dget m ptypes with
-                                  | some p => Except.ok p
-                                  | none => .error keyError) attrNames with
-            | .error e => .error e
-            | .ok plist =>
-              match oi.getKey "Data".toList with
-              | .ok (.arr gs) =>
-                match mapME (fun g => match JV.getKey g "PValues".toList with
-                                      | .ok (.arr vs) =>
-                                        mapME (fun (p : PType × JV) => fromJsonText p.1 p.2) (plist.zip vs)
-                                      | .ok _ => .error typeError
-                                      | .error e => .error e) gs with
-                | .error e => .error e
-                | .ok data =>
-                  match descr with
-                  | none | some .null => mkMVCxt data ptypes objNames (some attrNames) none
-                  | some (.str d) => mkMVCxt data ptypes objNames (some attrNames) (some d)
-                  | some _ => .error assertionError
-              | .ok _ => .error typeError
-              | .error e => .error e
-        | .ok none, _ => .error typeError
-        | .error e, _ => .error e
-        | _, .error e => .error e
-      | .error e, _ => .error e
-      | _, .error e => .error e
-      | _, .ok _ => .error typeError
-    | .ok _, .ok _, .ok none => .error typeError     -- zip(None, None)
-    | .error e, _, _ => .error e
-    | _, .error e, _ => .error e
-    | _, _, .error e => .error e
+    (md.getOpt "Description".toList).bind fun descr =>
+    (md.getOpt "ObjNames".toList).bind fun on =>
+    (md.getOpt "Params".toList).bind fun params =>
+      match params with
+      | none => .error typeError                    -- zip(None, None)
+      | some ps => readMVBody descr on ps oi
   | .arr _ => .error valueError
   | _ => .error typeError
+
+/-- `MVContext.write_json()`: the text -/
+def writeMVText (K : MVCxt) : Except CErr Str :=
+  (writeMVTree K).bind fun t => .ok (dumpsCompact t)
+
+/-- `MVContext.read_json(json_data=s)` (`JSONDecodeError` is a `ValueError`) -/
+def readMVText (s : Str) : Except CErr MVCxt :=
+  match loads s with
+  | none => .error valueError
+  | some t => readMVTree t
 
 /-- `K1 == K2` for many-valued contexts: `ValueError` on different names, else the pattern
     structures are compared by data and name -/
@@ -466,104 +487,130 @@ structure PConcept where
   contextHash : Option Int
   deriving Repr, Inhabited
 
+/-- `PTypes[k]` (`KeyError` for an unknown name) -/
+def typeOfName (ptypes : List (Str × PType)) (nm : Str) : Except CErr PType :=
+  match dget nm ptypes with
+  | some t => .ok t
+  | none => .error keyError
+
+/-- `PTypes[AttrNames[k]]` -/
+def typeOfInd (ptypes : List (Str × PType)) (attrNames : List Str) (k : Nat) : Except CErr PType :=
+  match attrNames[k]? with
+  | some nm => typeOfName ptypes nm
+  | none => .error indexError
+
+/-- one item of `Int.Inds`: `str(k): PTypes[AttrNames[k]].to_json(v)` (the key as `json.dumps` writes it) -/
+def encInd (ptypes : List (Str × PType)) (attrNames : List Str) (kv : Nat × PVal) : Except CErr (Str × JV) :=
+  (typeOfInd ptypes attrNames kv.1).bind fun t =>
+  (toJsonText t kv.2).bind fun s => .ok (natRepr kv.1, jStr s)
+
+/-- one item of `Int.Names`: `k: PTypes[k].to_json(v)` -/
+def encName (ptypes : List (Str × PType)) (kv : Str × PVal) : Except CErr (Str × JV) :=
+  (typeOfName ptypes kv.1).bind fun t =>
+  (toJsonText t kv.2).bind fun s => .ok (kv.1, jStr s)
+
+/-- the `Ext` entry of a pattern concept dict (indexes as stored, not sorted) -/
+def pExtEntry (inds : List Int) (names : List Str) : JV :=
+  .obj [("Inds".toList, .arr (inds.map .int)),
+        ("Names".toList, .arr (names.map jStr)),
+        ("Count".toList, jNat inds.length)]
+
+/-- the `Int` entry of a pattern concept dict after the `json_ready` rewriting -/
+def pIntEntry (inds names : List (Str × JV)) (count : Nat) (ptypes : List (Str × PType))
+    (attrNames : List Str) : JV :=
+  .obj [("Inds".toList, .obj inds),
+        ("Names".toList, .obj names),
+        ("Count".toList, jNat count),
+        ("PTypes".toList, .obj (ptypes.map fun p => (p.1, jStr p.2.name))),
+        ("AttrNames".toList, .arr (attrNames.map jStr))]
+
 /-- `PatternConcept.to_dict(json_ready=True)` (the dict keys of `Int.Inds` are what `json.dumps`
     makes of the integer keys: their decimal text) -/
 def PConcept.toDict (c : PConcept) : Except CErr JV :=
-  let inds := mapME (fun (kv : Nat × PVal) =>
-      match c.attrNames[kv.1]? with
-      | none => Except.error indexError
-      | some nm =>
-        match dget nm c.ptypes with
-        | none => .error keyError
-        | some t => match toJsonText t kv.2 with
-                    | .ok s => .ok (natRepr kv.1, jStr s)
-                    | .error e => .error e) c.intentI
-  let names := mapME (fun (kv : Str × PVal) =>
-      match dget kv.1 c.ptypes with
-      | none => Except.error keyError
-      | some t => match toJsonText t kv.2 with
-                  | .ok s => .ok (kv.1, jStr s)
-                  | .error e => .error e) c.intent
-  match inds, names with
-  | .error e, _ => .error e
-  | _, .error e => .error e
-  | .ok inds', .ok names' =>
-    let base : List (Str × JV) :=
-      [("Ext".toList, .obj [("Inds".toList, .arr (c.extentI.map .int)),
-                            ("Names".toList, .arr (c.extent.map jStr)),
-                            ("Count".toList, jNat c.extentI.length)]),
-       ("Int".toList, .obj [("Inds".toList, .obj inds'),
-                            ("Names".toList, .obj names'),
-                            ("Count".toList, jNat c.intentI.length),
-                            ("PTypes".toList, .obj (c.ptypes.map fun p => (p.1, jStr p.2.name))),
-                            ("AttrNames".toList, .arr (c.attrNames.map jStr))]),
-       ("Supp".toList, jNat c.extentI.length)]
-    let withMeasures := c.measures.foldl (fun d (kv : Str × JV) => JV.dictSet kv.1 kv.2 d) base
-    .ok (.obj (JV.dictSet "Context_Hash".toList (jOptInt c.contextHash) withMeasures))
+  (mapME (encInd c.ptypes c.attrNames) c.intentI).bind fun inds =>
+  (mapME (encName c.ptypes) c.intent).bind fun names =>
+    .ok (.obj (JV.dictSet "Context_Hash".toList (jOptInt c.contextHash)
+          (addMeasures c.measures
+            [("Ext".toList, pExtEntry c.extentI c.extent),
+             ("Int".toList, pIntEntry inds names c.intentI.length c.ptypes c.attrNames),
+             ("Supp".toList, jNat c.extentI.length)])))
+
+def asObj : JV → Except CErr (List (Str × JV))
+  | .obj kvs => .ok kvs
+  | _ => .error typeError
+
+/-- one item of `Int.PTypes`: class name → class -/
+def decPTypeEntry (kv : Str × JV) : Except CErr (Str × PType) :=
+  (decPType kv.2).bind fun t => .ok (kv.1, t)
+
+/-- one item of `Int.Inds`: `int(k): PTypes[AttrNames[int(k)]].from_json(v)` -/
+def decInd (ptypes : List (Str × PType)) (attrNames : List Str) (kv : Str × JV) : Except CErr (Nat × PVal) :=
+  (pyInt kv.1).bind fun k =>
+  (typeOfInd ptypes attrNames k).bind fun t =>
+  (fromJsonText t kv.2).bind fun v => .ok (k, v)
+
+/-- one item of `Int.Names` -/
+def decName (ptypes : List (Str × PType)) (kv : Str × JV) : Except CErr (Str × PVal) :=
+  (typeOfName ptypes kv.1).bind fun t =>
+  (fromJsonText t kv.2).bind fun v => .ok (kv.1, v)
+
+def asStrT : JV → Except CErr Str
+  | .str s => .ok s
+  | _ => .error typeError
+
+/-- `Int['AttrNames']` as a list of names -/
+def attrNamesOf (x : JV) : Except CErr (List Str) :=
+  match x with
+  | .arr xs => mapME asStrT xs
+  | _ => .error typeError
+
+/-- the `json_ready` rewriting of the `Int` entry in `from_dict`: `PTypes`, then `Inds`, then `Names` -/
+def pIntFields (int : JV) :
+    Except CErr (List (Nat × PVal) × List (Str × PVal) × List (Str × PType) × List Str) :=
+  (int.getKey "PTypes".toList).bind fun ptj => (asObj ptj).bind fun pt =>
+  (mapME decPTypeEntry pt).bind fun ptypes =>
+  (int.getKey "Inds".toList).bind fun ij => (asObj ij).bind fun inds =>
+  (int.getKey "AttrNames".toList).bind fun anj => (attrNamesOf anj).bind fun attrNames =>
+  (mapME (decInd ptypes attrNames) inds).bind fun ii =>
+  (int.getKey "Names".toList).bind fun nj => (asObj nj).bind fun names =>
+  (mapME (decName ptypes) names).bind fun inn =>
+  .ok (ii, inn, ptypes, attrNames)
+
+def asIntA : JV → Except CErr Int
+  | .int i => .ok i
+  | .bool b => .ok (if b then 1 else 0)
+  | _ => .error assertionError
+
+def asStrA : JV → Except CErr Str
+  | .str s => .ok s
+  | _ => .error assertionError
+
+/-- `unify_iterable_type(…, numbers.Integral)` / `(…, str)` on `Ext.Inds`, `Ext.get('Names', [])` -/
+def pExtFields (ext : JV) : Except CErr (List Int × List Str) :=
+  (ext.getKey "Inds".toList).bind fun ij =>
+  (ext.getOpt "Names".toList).bind fun nj =>
+    match ij, nj.getD (.arr []) with
+    | .arr is, .arr ns =>
+      (mapME asIntA is).bind fun is' => (mapME asStrA ns).bind fun ns' => .ok (is', ns')
+    | _, _ => .error assertionError
 
 /-- `PatternConcept.from_dict(data, json_ready=True)` -/
 def PConcept.fromDict (data : JV) : Except CErr PConcept :=
   match data with
   | .obj kvs =>
-    match JV.lookup "Int".toList kvs, JV.lookup "Ext".toList kvs with
-    | none, _ => .error keyError
-    | some int0, ext? =>
-      let int := if isBottomStr int0 then bottomPlaceholder else int0
-      match int.getKey "PTypes".toList, int.getKey "AttrNames".toList,
-            int.getKey "Inds".toList, int.getKey "Names".toList with
-      | .ok (.obj pt), .ok an, .ok (.obj inds), .ok (.obj names) =>
-        match mapME (fun (kv : Str × JV) => match kv.2 with
-                       | JV.str s => match PType.ofName s with
-                                     | .ok t => Except.ok (kv.1, t)
-                                     | .error e => .error e
-                       | _ => .error typeError) pt,
-              strsOf an with
-        | .ok ptypes, .ok attrNames =>
-          let inds' := mapME (fun (kv : Str × JV) =>
-              match pyInt kv.1 with
-              | .error e => Except.error e
-              | .ok k =>
-                match attrNames[k]? with
-                | none => .error indexError
-                | some nm =>
-                  match dget nm ptypes with
-                  | none => .error keyError
-                  | some t => match fromJsonText t kv.2 with
-                              | .ok v => .ok (k, v)
-                              | .error e => .error e) inds
-          let names' := mapME (fun (kv : Str × JV) =>
-              match dget kv.1 ptypes with
-              | none => Except.error keyError
-              | some t => match fromJsonText t kv.2 with
-                          | .ok v => .ok (kv.1, v)
-                          | .error e => .error e) names
-          match inds', names', ext? with
-          | .ok ii, .ok inn, some ext =>
-            match ext.getKey "Inds".toList, ext.getOpt "Names".toList with
-            | .ok ei, .ok en =>
-              match intsOf ei, strsOf (en.getD (.arr [])) with
-              | .ok ei', .ok en' =>
-                if ei'.length != en'.length then .error assertionError
-                else if ii.length != inn.length then .error assertionError
-                else
-                  match JV.lookup "Context_Hash".toList kvs with
-                  | none | some .null => .ok ⟨ei', en', ii, inn, ptypes, attrNames, measuresOf kvs, none⟩
-                  | some (.int h) => .ok ⟨ei', en', ii, inn, ptypes, attrNames, measuresOf kvs, some h⟩
-                  | some _ => .error typeError
-              | .error _, _ => .error assertionError
-              | _, .error _ => .error assertionError
-            | .error e, _ => .error e
-            | _, .error e => .error e
-          | .error e, _, _ => .error e
-          | _, .error e, _ => .error e
-          | _, _, none => .error keyError
-        | .error e, _ => .error e
-        | _, .error _ => .error typeError
-      | .error e, _, _, _ => .error e
-      | _, .error e, _, _ => .error e
-      | _, _, .error e, _ => .error e
-      | _, _, _, .error e => .error e
-      | _, _, _, _ => .error typeError
+    match JV.lookup "Int".toList kvs with
+    | none => .error keyError
+    | some int0 =>
+      (pIntFields (if isBottomStr int0 then bottomPlaceholder else int0)).bind fun i =>
+        match JV.lookup "Ext".toList kvs with
+        | none => .error keyError
+        | some ext =>
+          (pExtFields ext).bind fun e =>
+            if e.1.length != e.2.length then .error assertionError
+            else if i.1.length != i.2.1.length then .error assertionError
+            else
+              (hashOf (JV.lookup "Context_Hash".toList kvs)).bind fun h =>
+              .ok ⟨e.1, e.2, i.1, i.2.1, i.2.2.1, i.2.2.2, measuresOf kvs, h⟩
   | _ => .error typeError
 
 /-! ### concept lattices -/
